@@ -5,6 +5,7 @@ package discovery
 var vEntries = map[string]interface{}{
 	"VDisc": VDisc,
 	"VDiscRun": VDiscRun,
+	"VDiscBadGroup": VDiscBadGroup,
 	"VHash": VHash,
 	"VHashDedupe": VHashDedupe,
 }
